@@ -2,7 +2,7 @@
    Tags [FULL]/[PARTIAL]/[REFUTED] are read by bin/check. *)
 From Coq Require Import List NArith ZArith Arith Bool.
 From BLB Require Import Lib.GF256 Lib.GF256Laws Lib.RS Lib.RSLinAlg Lib.RSMds Lib.RSProofs C13.Model
-     C13.ProofsPack C13.ProofsRead C13.ProofsRecon C13.ProofsIndexMap.
+     C13.ProofsPack C13.ProofsRead C13.ProofsRecon C13.ProofsIndexMap C13.ProofsBlob.
 Import ListNotations.
 Open Scope nat_scope.
 
@@ -247,3 +247,14 @@ Theorem client_reconstruct_fail_closed :
     r_err (read_rs fx s k j e blank fail o w) = 2%N /\ r_read (read_rs fx s k j e blank fail o w) = 0%N.
 Proof. exact read_rs_fail_closed. Qed.
 Print Assumptions client_reconstruct_fail_closed.
+
+(* [FULL] rs_read_equals_replicated at the level of Blob.ReadAt, on the tree with the F15 patch: for every blob whose
+   packed tracts are well placed with their direct piece reachable, every offset and every length, including ranges
+   that span several tracts, holes and the end of the blob, reading through the erasure-coded locations returns
+   exactly the count, error class and bytes that reading the replicated tracts returns *)
+Theorem rs_readat_equals_replicated_fixed :
+  forall s blob off len,
+    blob_ok s blob ->
+    read_at true s true [] [] blob off len = read_at true s false [] [] blob off len.
+Proof. exact read_at_fixed_eq_lemma. Qed.
+Print Assumptions rs_readat_equals_replicated_fixed.
